@@ -336,6 +336,17 @@ fn rand_topic(rng: &mut StdRng) -> TopicName {
         let n = rng.gen_range(3..=64);
         (0..n).map(|_| b"abcdefghijklmnopqrtuvwxyz0123456789_-"[rng.gen_range(0..37)] as char).collect()
     };
+    // The wire format carries any pair of strings (the validity of a name is the server's business,
+    // C07): names outside the grammar must round-trip like any other
+    if rng.gen_bool(0.35) {
+        let odd: [(&str, &str); 8] = [("selium", "proxy"), ("ab", "x"), ("name space", "t!"), ("", ""), ("é€", "topic"),
+            ("seliumfoo", "bar"), ("namespace", "x/y/z"), ("n", "")];
+        let (a, b) = odd[rng.gen_range(0..8)];
+        if rng.gen_bool(0.2) {
+            return TopicName::_create_unchecked(&"n".repeat(rng.gen_range(65..200)), b);
+        }
+        return TopicName::_create_unchecked(a, b);
+    }
     let a = part(rng);
     let b = part(rng);
     TopicName::create(&a, &b).unwrap_or_else(|_| TopicName::create("aaa", "bbb").unwrap())
